@@ -26,21 +26,47 @@ def load_pool():
 
 
 class Obj:
+    """a pooled connection; `_last_used` is a property so that every idle test of the pool (its only reader) is recorded"""
+    answers = None        # list shared with the run: 'f' fresh / 'e' expired / 'c' creation failed
+    clock = None
+
     def __init__(self, i):
         self.i = i
         self.closed = 0
         self.reopened = False
+        self._lu = 0.0
+
+    @property
+    def _last_used(self):
+        if Obj.answers is not None and Obj.clock is not None:
+            Obj.answers.append("f" if Obj.clock["t"] - self._lu <= 5 else "e")
+        return self._lu
+
+    @_last_used.setter
+    def _last_used(self, v):
+        self._lu = v
 
 
-def run_schedule(mod, max_size, programs, plan, opcodes=False, idle=None):
-    """run thread programs over the real pool under a schedule plan; returns observations"""
+def run_schedule(mod, max_size, programs, plan, opcodes=False, idle=None, fail_create=()):
+    """run thread programs over the real pool under a schedule plan; returns observations.
+    idle: the pool has an idle timeout (5) and the Op `tick` advances the clock by 10; fail_create: indices of the creator calls that raise"""
     sched = Sched(plan, opcodes=opcodes)
     sched.in_get = {}
     created = []
+    attempts = [0]
+    sched.answers = []
+    Obj.answers, Obj.clock = None, None
 
     def creator():
+        k = attempts[0]
+        attempts[0] += 1
+        if k in fail_create:
+            sched.event("create-failed")
+            sched.answers.append("c")
+            raise OSError("could not connect")
         o = Obj(len(created))
         created.append(o)
+        sched.answers.append("k")
         sched.event(f"create {o.i}")
         return o
 
@@ -51,9 +77,10 @@ def run_schedule(mod, max_size, programs, plan, opcodes=False, idle=None):
                           idle_timeout=(5 if idle is not None else 0))
     used, free = make_deques(sched)
     pool._used_objs, pool._free_objs = used, free
+    clock = {"t": 0.0}
     if idle is not None:
-        clock = {"t": 0.0}
         pool._idle_clock = lambda: clock["t"]
+        Obj.answers, Obj.clock = sched.answers, clock
     holding = {}
     viol = []
 
@@ -75,6 +102,9 @@ def run_schedule(mod, max_size, programs, plan, opcodes=False, idle=None):
     def body(tid, prog):
         def f():
             for op in prog:
+                if op == "tick":
+                    clock["t"] += 10
+                    continue
                 if op == "clear":
                     pool.clear()
                     check_invariants("after clear")
@@ -177,12 +207,53 @@ def main(argv):
             ctx.violation(v, case)
         lines.append(f"pool.seq max=1 progs={p0};{p1} order=0,1 idle={','.join('f' * 8)}")
         metas.append(("seq", case, " | ".join(e for _, e in sched.trace)))
+    # idle expiry and a failing creator (an eagerly connecting client class and a server that is down): sequential, vs the model
+    IOPS = ["useOk", "useFail", "quitOk", "tick", "clear"]
+    for L in (2, 3, 4):
+        for prog in itertools.product(IOPS, repeat=L):
+            if "tick" not in prog and L > 2:
+                continue
+            if L == 4 and not ctx.thorough and (prog[0] != "useOk" or prog.count("tick") != 1):
+                continue
+            for mx in (1, 2):
+                for fc in ((), (1,), (0,), (1, 2)):
+                    sched, viol, leak = run_schedule(mod, mx, [list(prog)], (), idle=True, fail_create=fc)
+                    ctx.case(("seq-idle", prog, mx, fc))
+                    ctx.count("sequential-idle-programs")
+                    case = {"programs": [list(prog)], "max_size": mx, "idle_timeout": 5, "tick": 10, "failing_creator_calls": list(fc), "trace": [e for _, e in sched.trace][:40]}
+                    for v in viol:
+                        ctx.violation(v, case, tags=["idle-expiry"])
+                    mprog = [o for o in prog if o != "tick"]
+                    if mprog:
+                        lines.append(f"pool.seq max={mx} progs={','.join(mprog)} order={','.join('0' * len(mprog))} idle={','.join(sched.answers) or '-'}")
+                        metas.append(("seq", case, " | ".join(e for _, e in sched.trace)))
     # ---- (S) interleavings on the real code ------------------------------------------------------------------
     bound = 2 if ctx.thorough else 1
     progsets = [([a], [b]) for a in OPS for b in OPS]
     progsets += [tuple(rng.choice(OPS) for _ in range(2)) and ([rng.choice(OPS), rng.choice(OPS)], [rng.choice(OPS), rng.choice(OPS)]) for _ in range(40 if ctx.thorough else 8)]
     progsets += [([rng.choice(OPS)], [rng.choice(OPS)], [rng.choice(OPS)]) for _ in range(20 if ctx.thorough else 4)]
     nruns = 0
+    idle_sets = [(["useOk", "tick", "useOk"], ["useOk"], (2,)), (["useOk", "tick", "useOk"], ["useOk"], ()), (["useOk", "tick", "useFail"], ["tick", "useOk"], (1,)),
+                 (["useOk", "tick", "useOk"], ["clear"], (1,)), (["useOk"], ["useOk", "tick", "quitOk"], (2, 3))]
+    for (p0, p1, fc) in idle_sets:
+        programs = [p0, p1]
+        mprogs = [[o for o in p if o != "tick"] for p in programs]
+        for mx in (1, 2):
+            s0, _, _ = run_schedule(mod, mx, programs, (), idle=True, fail_create=fc)
+            npoints = min(s0.pos, 120)
+            for plan in plans(range(0, npoints, 1 if ctx.thorough else 2), 2, 1):
+                sched, viol, leak = run_schedule(mod, mx, programs, plan, idle=True, fail_create=fc)
+                nruns += 1
+                case = {"programs": programs, "max_size": mx, "idle_timeout": 5, "tick": 10, "failing_creator_calls": list(fc), "plan": [list(x) for x in plan],
+                        "trace_tail": [f"{t}:{e}" for t, e in sched.trace][-25:]}
+                ctx.case(("il-idle", tuple(map(tuple, programs)), mx, fc, plan))
+                ctx.count("interleavings idle-expiry/failing-creator")
+                for v in viol:
+                    ctx.violation(v, case, tags=["idle-expiry"] + (["clear-race"] if ("clear" in p1 and "closed" in v) else []))
+                if leak:
+                    ctx.violation(f"connection(s) {leak} were closed by clear() while checked out, re-opened by their holder and never closed again", case, tags=["clear-vs-holder"])
+                lines.append(f"pool.validate max={mx} progs={';'.join(','.join(p) for p in mprogs)} trace={trace_tok(sched.trace)}")
+                metas.append(("val", case, None))
     for programs in progsets:
         programs = [list(p) for p in programs]
         for mx in (1, 2):
